@@ -37,6 +37,7 @@ CONSTANTS
   MinSteps, MaxSteps,
   RationalOnly,\* TRUE: updates/readings must be in the rational fragment
   Twins,       \* TRUE: a renamed twin of the definition is drawn as well (C13)
+  SetOnce,     \* TRUE: the estimate is set once per behaviour (long Predict/Update histories)
   Chain,       \* TRUE: every grown node uses the previously grown node (deep chains of shared sub-terms)
   NeedDt,      \* TRUE: some update expression must depend on dt (time-stepping matters)
   BindLeaves,  \* TRUE: symbol leaves may be bound even when something was grown
@@ -66,12 +67,14 @@ Leaves == [i \in 1..(NSyms + 1 + Len(Consts)) |->
              ELSE IF i = NSyms + 1 THEN Sym("dt")
              ELSE Const(Consts[i - NSyms - 1])]
 
-UnaryOps == {"neg", "pow2", "pow3", "sin", "cos", "exp", "tanh", "atan", "sqrt1", "log1", "tan", "asinb", "acosb"}
+UnaryOps == {"usat", "muldt", "neg", "pow2", "pow3", "sin", "cos", "exp", "tanh", "atan", "sqrt1", "log1", "tan", "asinb", "acosb"}
 \* asin / acos are only applied to arguments that are bounded by construction (|sin|, |cos|, |tanh| <= 1)
 BoundedFn(e) == e.op = "fn" /\ e.f \in {"sin", "cos", "tanh"}
 MkNode(op, a, b) ==
   CASE op \in BinOps -> Bin(op, a, b)
     [] op = "neg"  -> Neg(a)
+    [] op = "usat" -> Fn("sat", a)                  \* a USER function supplied through Config.python_modules (Python back-end only)
+    [] op = "muldt" -> Bin("mul", a, Sym("dt"))      \* linear-in-dt models (x + v dt): the everyday case
     [] op = "pow2" -> Pow(a, 2)
     [] op = "pow3" -> Pow(a, 3)
     [] op \in {"sin", "cos", "exp", "tanh", "atan", "tan"} -> Fn(op, a)
@@ -149,7 +152,7 @@ Grow(op, i, j) ==
   /\ (op \in {"asinb", "acosb"} => BoundedFn(pool[i]))
   /\ ((Chain /\ NGrown > 0) => (i = Len(pool) \/ j = Len(pool)))
   /\ (op \in {"add", "mul"} => i <= j)                \* commutative: one representative
-  /\ (RationalOnly => op \in BinOps \cup {"neg", "pow2", "pow3"})
+  /\ (RationalOnly => op \in BinOps \cup {"neg", "pow2", "pow3", "muldt"})
   /\ LET e == MkNode(op, pool[i], pool[j]) IN
      /\ \A t \in DOMAIN pool : pool[t] # e
      /\ NodeOK(e)
@@ -263,6 +266,7 @@ CovOf(rp) == [r \in StateOf |-> [c \in StateOf |->
 
 SetEstimate(p, rp) ==
   /\ CanStep /\ "SetEstimate" \in Acts /\ p \in RangeOf(pts) /\ rp \in 0..(Len(PDiag) - 1)
+  /\ (SetOnce => est = <<>>)
   /\ est' = [x |-> PointEnv(p).x, P |-> CovOf(rp)]
   /\ steps' = Append(steps, [act |-> "SetEstimate", x |-> est'.x, P |-> est'.P])
   /\ last' = [act |-> "SetEstimate"]
@@ -304,7 +308,7 @@ UpdateAccept(key, rz) ==
                                 x |-> K.x, P |-> K.P, innov |-> K.innov, S |-> K.S, nis |-> K.nis,
                                 boundary |-> GateOnBoundary(def.k, K.m, K.nis)])
      /\ last' = [act |-> "Update", outcome |-> "accepted", prior |-> est, exact |-> (rz < 0),
-                 nis |-> K.nis, S |-> K.S]
+                 nis |-> K.nis, S |-> K.S, key |-> key, z |-> z]
   /\ UNCHANGED <<phase, shape, prm, names, skeys, rnames, pts, pool, upd, sens, def, twin>>
 
 \* a discarded reading leaves the estimate EXACTLY as it was, but the innovation is recorded
@@ -453,6 +457,19 @@ InvUpdate ==
   (last # <<>> /\ last.act = "Update" /\ last.outcome = "accepted") =>
      /\ (last.exact => est.x = last.prior.x)
      /\ LET so == Ord(StateOf) IN PSD(MSub(ToMat(last.prior.P, so, so), ToMat(est.P, so, so)))
+\* C05 (any positive per-reading noise, any scale): measuring one reading in other units -- reading, prediction and noise
+\* standard deviation all multiplied by c -- is the same information, so the corrected estimate is the same.  The replay harness
+\* uses this with c = 2^22 (exact in binary floating point), which spreads the eigenvalues of S over thirteen decades.
+ScaleReading(d, key, r0, c) ==
+  [d EXCEPT !.sensors[key][r0] = Bin("mul", CI(c), @), !.snoise[key][r0] = RMul(RI(c * c), @)]
+InvRescale ==
+  (last # <<>> /\ last.act = "Update" /\ last.outcome = "accepted") =>
+     LET key == last.key
+         r0 == Ord(Readings(def, key))[1]
+         d2 == ScaleReading(def, key, r0, 4)
+         z2 == [last.z EXCEPT ![r0] = RMul(RI(4), @)]
+         K2 == Kalman(d2, key, last.prior, z2) IN
+     (IsBad(z2[r0]) \/ NVecBad(K2.x) \/ NMatBad(K2.P) \/ NMatBad(K2.S)) \/ (K2.x = est.x /\ K2.P = est.P)
 \* C06: a discard changes nothing; with filtering disabled nothing is discarded
 InvReject ==
   (last # <<>> /\ last.act = "Update" /\ last.outcome = "rejected") =>
